@@ -67,6 +67,7 @@ type LemmaRun struct {
 	MaxDecisions   int
 	MaxWallS       float64
 	NondetMapOrder bool
+	NondetMapInsert bool // opts.nondetMapInsert: an entry inserted into a map while it is being ranged over may or may not be visited (Go spec)
 	YieldAtGo      bool
 	SolverTimeoutMs int   // per-query timeout (opts.solverTimeoutMs, default 20000)
 	SolverKind     string // primary solver of this lemma ("z3" default; opts.solver = "z3-new" selects the newer z3)
@@ -180,6 +181,9 @@ func newLemmaRun(spec *LemmaSpec, tier string, known map[string]string) *LemmaRu
 	}
 	if b, _ := spec.Opts["nondetMapOrder"].(bool); b {
 		l.NondetMapOrder = true
+	}
+	if b, _ := spec.Opts["nondetMapInsert"].(bool); b {
+		l.NondetMapInsert = true
 	}
 	if b, _ := spec.Opts["yieldAtGo"].(bool); b {
 		l.YieldAtGo = true
